@@ -315,6 +315,9 @@ func FieldMenu() []FieldVariant {
 	add("F23-double-slash-in-existing-value", "Site string `doc:\"see http://x//y\" json:\"site\"` // @tag valid:\"required\"", true)
 	// an annotation that overrides a key whose existing value carries options, with options of its own
 	add("F24-options-on-both-sides", "Opt string `json:\"user_id,omitempty\" xml:\"u,attr\"` // @tag json:\"id,string\"", true)
+	// first keys that start with the letters of the marker word itself (a, g, t)
+	add("F25-first-key-starts-with-marker-letters", "Gorm string `json:\"gorm_f\"` // @tag gorm:\"primaryKey\" toml:\"conf\"", true)
+	add("F25-first-key-avro-tag-a", "Avro string `json:\"avro_f\"` // @tag avro:\"alt_name\" tag:\"x\" a:\"1\" gg:\"2\"", true)
 	// keys that are a suffix / prefix of another key, same value: key matching must be on whole keys
 	add("F17-key-suffix-of-existing", "KeySuffix string `binding_valid:\"required\" json:\"ks\"` // @tag valid:\"required\"", true)
 	add("F17-key-prefix-of-existing", "KeyPrefix string `json:\"kp\" validx:\"required\"` // @tag valid:\"required\" json:\"kp\"", true)
@@ -340,6 +343,8 @@ func DupKeyMenu() []FieldVariant {
 		{"D8-empty-value-first", "EmptyA string `bson:\"\" json:\"ea\"` // @tag valid:\"required\"", true},
 		{"D9-empty-value-last", "EmptyB string `json:\"eb\" bson:\"\"` // @tag valid:\"required\" json:\"e\"", true},
 		{"D10-bare-word-in-literal", "Bare string `json:\"bw\" omitempty  xml:\"x\"` // @tag valid:\"required\"", true},
+		{"D13-keys-with-dash-and-dot", "Ext string `json:\"ext\"` // @tag x-order:\"2\" json.name:\"n\"", true},
+		{"D14-empty-raw-tag-literal", "EmptyRaw string `` // @tag valid:\"required\"", true},
 		{"D11-only-unrecognised-text", "OnlyU string `bson:\"\"` // @tag valid:\"required\"", true},
 	}
 }
